@@ -21,7 +21,8 @@ RULE = ('Exhaustive: every operand tuple over the 8 values for k=1..4 operands (
         'each tuple sits in one lane of a seeded random lane permutation padded with random neighbours (lane independence). '
         'Randomised: N-D shapes with broadcasting for mv_*, leading dimensions for bp*, caller supplied out=. '
         'A case is one (operator, operand tuple); it is non-trivial iff the tuple contains a value outside {0,1}; '
-        'distinct = distinct (operator, tuple).')
+        'distinct = distinct (operator, tuple).'
+        ' Plus whole arrays drawn from sub-alphabets, single-operand bit-parallel AND/OR/XOR (operator results compared exactly), non-contiguous out= and operands, operands of different rank, arrays of 65537-131073 elements.')
 ASSUMPTIONS = ["X and '-' are one class when comparing the plain copy (buf) and in the sampled shape/out= parts; in the exhaustive part operator results are compared exactly (operators produce X for an unassigned operand)",
                'bit-parallel operands of one call have identical shapes; out= never aliases an input of mv_*',
                'the algebra model is the documented rule set, self-checked against the 4x64 tables printed in tests/test_logic.py']
